@@ -20,6 +20,10 @@ pub enum Strategy {
     CancelReissue { at: usize, polls: usize },
     /// every accept call is polled `polls` times, dropped and reissued
     CancelAll { polls: usize },
+    /// `tasks` tasks accept concurrently and each one leaves after its own share of the streams (total / tasks, the first ones
+    /// one more): a stream that arrives while several accept calls are pending must reach one of them, and the next stream
+    /// one of those still waiting
+    Quota { tasks: usize },
 }
 
 #[derive(Clone, Debug)]
@@ -44,6 +48,7 @@ impl Sc {
             Strategy::Delay { ms } => json!(["delay", ms, 0]),
             Strategy::CancelReissue { at, polls } => json!(["cancel_reissue", at, polls]),
             Strategy::CancelAll { polls } => json!(["cancel_all", polls, 0]),
+            Strategy::Quota { tasks } => json!(["quota", tasks, 0]),
         };
         json!({"raw_opener": self.raw_opener, "acceptor_server": self.acceptor_server, "n": self.n, "pattern": self.pattern, "strategy": st, "limit": self.limit, "sel": self.sel})
     }
@@ -58,6 +63,7 @@ impl Sc {
             strategy: match v["strategy"][0].as_str().unwrap() {
                 "immediate" => Strategy::Immediate { tasks: a as usize },
                 "delay" => Strategy::Delay { ms: a },
+                "quota" => Strategy::Quota { tasks: a as usize },
                 "cancel_reissue" => Strategy::CancelReissue { at: a as usize, polls: b as usize },
                 _ => Strategy::CancelAll { polls: a as usize },
             },
@@ -217,15 +223,19 @@ pub async fn run(sc: Sc) -> Result<String, String> {
     };
     let mut app_tasks = vec![];
     let ntasks = match &sc.strategy {
-        Strategy::Immediate { tasks } => *tasks,
+        Strategy::Immediate { tasks } | Strategy::Quota { tasks } => *tasks,
         _ => 1,
     };
     let counter_uni = Arc::new(Mutex::new(0usize));
     let counter_bi = Arc::new(Mutex::new(0usize));
-    for _ in 0..ntasks {
+    for ti in 0..ntasks {
         for kind_bidi in [false, true] {
             let total = if kind_bidi { n_bi } else { n_uni };
             if total == 0 {
+                continue;
+            }
+            let quota = if matches!(sc.strategy, Strategy::Quota { .. }) { total / ntasks + usize::from(ti < total % ntasks) } else { usize::MAX };
+            if quota == 0 {
                 continue;
             }
             let conn = acceptor.clone();
@@ -234,9 +244,10 @@ pub async fn run(sc: Sc) -> Result<String, String> {
             let counter = if kind_bidi { counter_bi.clone() } else { counter_uni.clone() };
             app_tasks.push(tokio::spawn(async move {
                 let mut call = 0usize;
+                let mut mine = 0usize;
                 loop {
                     {
-                        if *counter.lock().unwrap() >= total {
+                        if *counter.lock().unwrap() >= total || mine >= quota {
                             return;
                         }
                     }
@@ -252,6 +263,7 @@ pub async fn run(sc: Sc) -> Result<String, String> {
                             match $res {
                                 Ok(x) => {
                                     *counter.lock().unwrap() += 1;
+                                    mine += 1;
                                     x
                                 }
                                 Err(e) => {
@@ -363,11 +375,16 @@ pub fn scenarios(tier: Tier) -> Vec<Sc> {
             for pattern in 0..4u8 {
                 for &n in &ns {
                     let mut strategies = vec![Strategy::Immediate { tasks: 1 }, Strategy::Immediate { tasks: 2 }, Strategy::Immediate { tasks: 3 }, Strategy::Delay { ms: 10 }, Strategy::Delay { ms: 1000 }];
+                    for tasks in [2usize, 3, 4] {
+                        if tasks <= n {
+                            strategies.push(Strategy::Quota { tasks });
+                        }
+                    }
                     for polls in 0..4usize {
                         strategies.push(Strategy::CancelAll { polls });
                     }
                     for st in strategies {
-                        if !thorough && n == 9 && !matches!(st, Strategy::Immediate { tasks: 1 } | Strategy::CancelAll { polls: 1 }) {
+                        if !thorough && n == 9 && !matches!(st, Strategy::Immediate { tasks: 1 } | Strategy::CancelAll { polls: 1 } | Strategy::Quota { tasks: 2 }) {
                             continue;
                         }
                         out.push(Sc { raw_opener, acceptor_server, n, pattern, strategy: st, ..base.clone() });
@@ -438,7 +455,7 @@ pub fn run_check(args: &Args) -> i32 {
     let rep = Report::new(
         args,
         "exploration",
-        "scenario = opener (raw peer / wtransport peer) x acceptor role x stream count (1,2,3,5,9; 12 = 3x a concurrent-stream limit of 4) x uni/bidi pattern (4) x acceptance strategy (1-3 concurrently accepting tasks; 10 ms / 1 s between accepts; every accept future polled 0..3 times then dropped and reissued; the same at each single stream index) x select! start deviation (<=1 non-zero start in the first 10/24 polls); all distinct by construction, non-trivial (>= 1 stream)",
+        "scenario = opener (raw peer / wtransport peer) x acceptor role x stream count (1,2,3,5,9; 12 = 3x a concurrent-stream limit of 4) x uni/bidi pattern (4) x acceptance strategy (1-3 concurrently accepting tasks sharing the work, 2-4 tasks each leaving after its own share; 10 ms / 1 s between accepts; every accept future polled 0..3 times then dropped and reissued; the same at each single stream index) x select! start deviation (<=1 non-zero start in the first 10/24 polls); all distinct by construction, non-trivial (>= 1 stream)",
     );
     rep.assume("single-threaded runtime: concurrently accepting tasks interleave at await points only");
     let scs = scenarios(args.tier);
